@@ -416,14 +416,14 @@ def valuation_formulas(ck, an, want: set):
             ck.check(not m.args and not m.keywords, "ARGFLOW", "S5.marks-all-contracts", fn.f.short, fn.loc(m), "valuation marks every contract", f"valuation marks only {ast.unparse(m)}", construct=stmt_text(m))
         rets = [r for r in returns_in(fn) if r.value is not None]
         k = [fn.sym.canon(r.value) for r in rets]
-        specs = [spec(fn, t).key() for t in ("sum(self.holdings_values(kind='liquidation').values())", "sum(self.holdings_values('liquidation').values())")]
+        specs = [specv(fn, t).key() for t in ("sum(self.holdings_values(kind='liquidation').values())", "sum(self.holdings_values('liquidation').values())")]
         ck.check(len(k) == 1 and k[0] in specs, "LIN", "S6.nlv-is-sum-of-liquidation-values", fn.f.short, fn.f.loc,
                  "NLV = sum of liquidation values (cash + margins + fully-paid positions)", f"NLV = {k}", construct="return nlv")
     if "weights" in want:
         fwt = an.fa("Broker.holdings_weights")
         rets = [r for r in returns_in(fwt) if r.value is not None]
         k = [fwt.sym.canon(r.value) for r in rets]
-        specs = [spec(fwt, "{c: v / self.net_liquidation_value() for c, v in self.holdings_values(%s).items()}" % a).key() for a in ("", "kind='notional'", "'notional'")]
+        specs = [specv(fwt, "{c: v / self.net_liquidation_value() for c, v in self.holdings_values(%s).items()}" % a).key() for a in ("", "kind='notional'", "'notional'")]
         ck.check(len(k) == 1 and k[0] in specs, "LIN", "S6.weight-is-notional-over-nlv", fwt.f.short, fwt.f.loc, "weight = notional value / NLV for every holding", f"holdings_weights returns {k}",
                  construct="return {contract: value / nlv ...}")
 
